@@ -50,6 +50,42 @@ Theorem C02_heap_backend_pop_refines :
 Proof. exact hq_pop_refines. Qed.
 Print Assumptions C02_heap_backend_pop_refines.
 
+(** The waiter list of a Notification (subscribe / unsubscribe / awake_next / awake_all, WaiterList.v - compared on every
+    run with the real Notification driven under a stand-in loop): for EVERY history of operations, what has been scheduled
+    followed by what still waits is a subsequence of the subscriptions in the order in which they were made - waking is
+    FIFO, nobody is woken who did not subscribe; awake_all wakes everybody, oldest first; awake_next the oldest only;
+    unsubscribing removes exactly that pair. *)
+From Usim Require WaiterList.
+Theorem C02_waiters_are_woken_in_subscription_order :
+  forall ops, WaiterList.subseq (WaiterList.scheduled (WaiterList.run ops) ++ WaiterList.waiting (WaiterList.run ops))
+                                (WaiterList.all_subs ops).
+Proof. exact WaiterList.scheduled_in_subscription_order. Qed.
+Print Assumptions C02_waiters_are_woken_in_subscription_order.
+
+Theorem C02_awake_all_wakes_everybody_oldest_first :
+  forall ops, WaiterList.waiting (WaiterList.run (ops ++ [WaiterList.AwakeAll])) = [] /\
+    WaiterList.scheduled (WaiterList.run (ops ++ [WaiterList.AwakeAll])) =
+    WaiterList.scheduled (WaiterList.run ops) ++ WaiterList.waiting (WaiterList.run ops).
+Proof. exact WaiterList.awake_all_wakes_everybody. Qed.
+Print Assumptions C02_awake_all_wakes_everybody_oldest_first.
+
+Theorem C02_awake_next_wakes_the_oldest_only :
+  forall ops p r, WaiterList.waiting (WaiterList.run ops) = p :: r ->
+    WaiterList.waiting (WaiterList.run (ops ++ [WaiterList.AwakeNext])) = r /\
+    WaiterList.scheduled (WaiterList.run (ops ++ [WaiterList.AwakeNext])) = WaiterList.scheduled (WaiterList.run ops) ++ [p].
+Proof. exact WaiterList.awake_next_wakes_the_oldest. Qed.
+Print Assumptions C02_awake_next_wakes_the_oldest_only.
+
+Theorem C02_unsubscribe_removes_exactly_that_pair :
+  forall ops w t l, WaiterList.is_scheduled (WaiterList.run ops) t = false ->
+    WaiterList.remove_first (w, t) (WaiterList.waiting (WaiterList.run ops)) = Some l ->
+    WaiterList.waiting (WaiterList.run (ops ++ [WaiterList.Unsub w t])) = l /\
+    WaiterList.scheduled (WaiterList.run (ops ++ [WaiterList.Unsub w t])) = WaiterList.scheduled (WaiterList.run ops) /\
+    WaiterList.subseq l (WaiterList.waiting (WaiterList.run ops)) /\
+    length (WaiterList.waiting (WaiterList.run ops)) = S (length l).
+Proof. exact WaiterList.unsubscribe_removes_exactly_that_pair. Qed.
+Print Assumptions C02_unsubscribe_removes_exactly_that_pair.
+
 (** (A) the tie to /repo's current source: every function this property's models were transcribed from has, in the
     tree this run is checking, the normalised source it had when the models were validated (hashes regenerated from
     /repo into gen/Generated.v on every run; pins in gen/SourcePins.v).  A change to one of them invalidates the
